@@ -283,6 +283,13 @@ func (t *tracer) trace(v ssa.Value, ctx []callCtx, depth int, prefix string) {
 		t.emit(prefix, "global:"+x.Name())
 	case *ssa.TypeAssert:
 		t.trace(x.X, ctx, depth+1, prefix)
+	case *ssa.Convert:
+		// integer width conversions keep the quantity; anything else (string<->bytes, float) is named
+		if isIntType(x.Type()) && isIntType(x.X.Type()) {
+			t.trace(x.X, ctx, depth+1, prefix)
+		} else {
+			t.trace(x.X, ctx, depth+1, prefix+"convert("+typeName(x.X.Type())+"->"+typeName(x.Type())+") ")
+		}
 	default:
 		t.emit(prefix, fmt.Sprintf("unknown:%T", v))
 	}
@@ -514,4 +521,9 @@ func transparentArg(e *Engine, g *ssa.Function, c *ssa.Call) (ssa.Value, string)
 		return c.Call.Args[i], "conv"
 	}
 	return nil, ""
+}
+
+func isIntType(t types.Type) bool {
+	b, ok := t.Underlying().(*types.Basic)
+	return ok && b.Info()&types.IsInteger != 0
 }
